@@ -116,17 +116,25 @@ fn plan(prop: &str, tier: &str) -> Plan {
         let n = family_items("three-men", tm, 0, &mut items);
         fams.push(json!({"family": "three-men", "members": n, "depth": 0, "complete": true}));
     }
-    // C04: trees at the end of long games, nesting depths around 255 / 256 and beyond
-    if prop == "C04" {
+    // C04 / C12: trees at the end of long games (history depths around 255 / 256 / 512 and
+    // beyond), the whole game unwound afterwards. Two roots: the starting position, and one from
+    // which an en-passant capture is two plies away for either side at the end of the game.
+    if matches!(prop, "C04" | "C12") {
         let start = Pos::startpos();
+        let eproot = Pos::from_fen(LONG_GAME_EP_ROOT).unwrap();
+        let lens: Vec<usize> = vec![250, 253, 254, 255, 256, 257, 300, 520];
+        let ep_lens: Vec<usize> = vec![250, 251, 252, 253, 254, 255, 256, 257, 509, 510, 511, 512, 513];
+        let tail = if thorough { 3 } else { 2 };
         let mut n = 0;
-        for len in [250usize, 253, 254, 255, 256, 257, 300, 520] {
-            let pre = preroll_game(len);
-            let tail = if thorough { 3 } else { 2 };
-            items.push(Item { seed_name: format!("long-game-{}", len), seed_fen: start.to_fen(), root: start.clone(), prefix: pre, remaining: tail });
+        for len in lens.iter() {
+            items.push(Item { seed_name: format!("long-game-{}", len), seed_fen: start.to_fen(), root: start.clone(), prefix: preroll_game(*len), remaining: tail });
             n += 1;
         }
-        fams.push(json!({"family": "trees at the end of long games (C04)", "members": n, "game_lengths": [250, 253, 254, 255, 256, 257, 300, 520]}));
+        for len in ep_lens.iter() {
+            items.push(Item { seed_name: format!("long-game-ep-{}", len), seed_fen: eproot.to_fen(), root: eproot.clone(), prefix: preroll_game_from(&eproot, *len), remaining: tail });
+            n += 1;
+        }
+        fams.push(json!({"family": "trees at the end of long games, games unwound afterwards", "members": n, "game_lengths_from_start": lens, "game_lengths_from_ep_root": ep_lens, "ep_root": LONG_GAME_EP_ROOT, "tail_depth": tail, "merged_with_other_states": false}));
     }
     // C05: the key must not depend on the clocks either — roots pre-loaded with half-move clocks
     // around 100 and ply counts around 255 (the key is compared with a direct set-up at clock 0)
